@@ -208,6 +208,7 @@ class Executor:
         self.cfg = cfg or {}
         self.obligations = []
         self.facts = []
+        self.fact_pcs = {}   # fact index -> path condition it was assumed under (for relevance pruning)
         self.n = 0
         self.spec = 0
         self.frames = []
@@ -279,6 +280,7 @@ class Executor:
     def assume(self, st, fact):
         if z3.is_true(fact):
             return
+        self.fact_pcs[len(self.facts)] = st.pc
         self.facts.append(zimp(st.pc, fact))
 
     def oblige(self, st, kind, label, goal, ln, text="", canary=False):
